@@ -39,6 +39,7 @@ type lookup struct {
 	sent     bool
 	stall    bool
 	finished bool
+	released bool
 	failed   bool
 	lateMs   int64
 	detail   string
@@ -80,8 +81,8 @@ func (b *behRun) update(shape []keySpec) {
 }
 
 func (b *behRun) snapshot(g, ip int, op opSpec) {
-	if old := b.cur[g]; old != nil && !old.stall {
-		b.finish(old) // a stalled lookup ends at the server's deadline: collected at the end of the behaviour
+	if old := b.cur[g]; old != nil {
+		b.release(old)
 	}
 	cl, err := b.s.connect(ip)
 	if err != nil {
@@ -126,7 +127,7 @@ func (b *behRun) read50(g int) {
 		if ok {
 			b.emit(ev{"ev": "Find", "g": lk.slot, "e": 0})
 		}
-		b.finish(lk)
+		b.release(lk)
 	case <-time.After(waitStep):
 		fatal("neither a Mark call nor an authentication result within %v (conn %d, %v)", waitStep, lk.cl.rec.id, lk.op)
 	}
@@ -156,17 +157,41 @@ func (b *behRun) markLk(lk *lookup) {
 	b.emit(ev{"ev": "Mark", "g": lk.slot, "e": mr.tok, "ip": ipTok})
 }
 
-// finish: bring the connection to its end and record what every observer saw
-func (b *behRun) finish(lk *lookup) {
-	if lk.finished {
+// release: let the connection run to its end without waiting for it (so that the other connections of the behaviour
+// are never held up); collect() records what every observer saw, at the end of the behaviour.
+func (b *behRun) release(lk *lookup) {
+	if lk.released {
 		return
 	}
-	lk.finished = true
-	rec := lk.cl.rec
 	if !lk.sent {
 		fatal("behaviour ended with a lookup that never got its opening bytes (slot %d)", lk.g)
 	}
 	b.markLk(lk)
+	lk.released = true
+	lk.cl.rec.openGate()
+	if lk.stall {
+		return // ends at the server's deadline
+	}
+	rec := lk.cl.rec
+	if !waitCh(rec.authDone, waitStep) {
+		fatal("authenticator did not return within %v (conn %d)", waitStep, rec.id)
+	}
+	rec.mu.Lock()
+	st := rec.authSt
+	rec.mu.Unlock()
+	if st != "OK" {
+		// refused: the server must hold the connection open until the client closes
+		lk.cl.fin()
+	}
+}
+
+func (b *behRun) collect(lk *lookup) {
+	if lk.finished {
+		return
+	}
+	lk.finished = true
+	b.release(lk)
+	rec := lk.cl.rec
 	limit := b.s.timeout + waitStep
 	if !waitCh(rec.authDone, limit) {
 		fatal("authenticator did not return within %v (conn %d)", limit, rec.id)
@@ -175,14 +200,10 @@ func (b *behRun) finish(lk *lookup) {
 	st := rec.authSt
 	rec.mu.Unlock()
 	if st == "OK" {
-		rec.openGate()
 		// the target answers and closes; the server relays and half-closes; then the client closes.  (No answer
 		// within this time is recorded as such - bytes = 0 - and judged by nobody: the property only speaks about
 		// effects for the UNauthenticated.)
 		waitCh(rec.rdDone, 1500*time.Millisecond)
-		lk.cl.fin()
-	} else if !lk.stall {
-		// refused: the server must hold the connection open until the client closes
 		lk.cl.fin()
 	}
 	if !waitCh(rec.closedDone, limit) {
@@ -204,6 +225,9 @@ func (b *behRun) finish(lk *lookup) {
 	raw := append([]byte{}, rec.raw...)
 	e := ev{"ev": "Result", "g": lk.slot, "name": name, "st": st, "dial": rec.dials > 0, "bytes": len(raw), "authm": authm,
 		"closed": rec.closedSt, "probe": rec.probeSt, "drain": rec.probeDrain, "conn": rec.id}
+	if rec.panicked != "" {
+		e["panic"] = rec.panicked
+	}
 	rec.mu.Unlock()
 	if st == "OK" && lk.op.Kind == "valid" {
 		plain, err := decryptResponse(raw, encKey(lk.op.Cls, lk.op.Sec))
@@ -211,8 +235,9 @@ func (b *behRun) finish(lk *lookup) {
 	}
 	b.emit(e)
 	lk.cl.close()
-	// a valid opener that reached the server later than half the handshake timeout makes the scenario unusable
-	if lk.op.Kind == "valid" && lk.lateMs > b.s.timeout.Milliseconds()/2 {
+	// a valid opener that was refused after reaching the server later than half the handshake timeout (machine
+	// load) proves nothing: the scenario is re-run / dropped
+	if lk.op.Kind == "valid" && st != "OK" && lk.lateMs > b.s.timeout.Milliseconds()/2 {
 		b.late = true
 	}
 }
@@ -238,7 +263,7 @@ func runBehaviour(steps []behStep, seed int64, pad int, timeout time.Duration) (
 			b.mark(st.G)
 		case "Serve":
 			if lk := b.cur[st.G]; lk != nil && lk.marked {
-				b.finish(lk)
+				b.release(lk)
 			}
 		default:
 			fatal("step %d: unknown action %q", i, st.A)
@@ -250,7 +275,10 @@ func runBehaviour(steps []behStep, seed int64, pad int, timeout time.Duration) (
 		}
 	}
 	for _, lk := range b.all {
-		b.finish(lk)
+		b.release(lk)
+	}
+	for _, lk := range b.all {
+		b.collect(lk)
 	}
 	return b.out, b.late
 }
